@@ -1,43 +1,110 @@
-"""datetime -> seconds-since-epoch sites: every one must use a UTC-correct idiom (RFC 4880 3.5: seconds since 1970 UTC)."""
-import ast
+"""datetime -> seconds-since-epoch sites: every one must use a UTC-correct idiom (RFC 4880 3.5: seconds since 1970 UTC).
 
-from .loader import dotted
+A site is a *call* that turns a datetime into epoch seconds (`timegm`, `mktime`, `.timestamp()`).  It is classified by the
+value that reaches it (interpreter call events: locals are propagated by value, so `tt = x.utctimetuple(); timegm(tt)` is the
+same site as `timegm(x.utctimetuple())`), not by the spelling of the statement.  The AST is used only to locate candidate
+functions and for call nodes the interpreter does not reach.
+"""
+import ast
+import re
+
+from .loader import dotted, AnalysisError
 
 # normalised with the datetime expression replaced by X
 UTC_TIME_FORMS = {'calendar.timegm(X.utctimetuple())', 'timegm(X.utctimetuple())'}
 
+CONVERTERS = ('timegm', 'mktime')
 
-def time_sites(prog):
+
+def is_utc_seconds(text, of=None):
+    """`text` is the UTC-correct epoch-seconds term of some datetime expression (of `of`, if given)."""
+    m = re.match(r'^(?:calendar\.)?timegm\((.+)\.utctimetuple\(\)\)$', text or '')
+    return bool(m) and (of is None or m.group(1) == of)
+
+
+def _kind_of_value(fname, argtext):
+    """Classification of converter `fname` applied to the value rendered as `argtext`."""
+    if fname == 'mktime':
+        return 'local'                      # time.mktime interprets the tuple in the process' local zone, whatever tuple it is
+    if re.match(r'^.+\.utctimetuple\(\)$', argtext or ''):
+        return 'utc'
+    if re.match(r'^.+\.timetuple\(\)$', argtext or ''):
+        return 'drops-offset'
+    return 'unknown'
+
+
+def _kind_of_node(n):
+    """Fallback for a call node the interpreter did not reach: the literal idiom only."""
+    fname = (dotted(n.func) or '').split('.')[-1]
+    if fname == 'mktime':
+        return 'local'
+    a = n.args[0]
+    if isinstance(a, ast.Call) and isinstance(a.func, ast.Attribute) and not a.args:
+        if a.func.attr == 'utctimetuple':
+            return 'utc'
+        if a.func.attr == 'timetuple':
+            return 'drops-offset'
+    return 'unknown'
+
+
+def _candidates(fn):
+    out = []
+    for n in ast.walk(fn.node):
+        if not isinstance(n, ast.Call):
+            continue
+        d = dotted(n.func) or ''
+        if d.split('.')[-1] in CONVERTERS and n.args:
+            out.append((n, 'conv'))
+        elif isinstance(n.func, ast.Attribute) and n.func.attr == 'timestamp' and not n.args and not n.keywords:
+            # datetime.timestamp() interprets a naive datetime in the process' LOCAL zone (utctimetuple treats it as UTC):
+            # the octets would then depend on the TZ of the process
+            out.append((n, 'timestamp'))
+    return out
+
+
+def time_sites(prog, only=None):
     """(function, call node, classification, text) for every conversion of a datetime to epoch seconds."""
+    from .interp import Interp, Scenario
     out = []
     for fn in prog.all_functions():
-        for n in ast.walk(fn.node):
-            if not isinstance(n, ast.Call):
-                continue
-            d = dotted(n.func) or ''
-            if d.split('.')[-1] in ('timegm', 'mktime') and n.args:
-                a = n.args[0]
-                kind = 'unknown'
-                if isinstance(a, ast.Call) and isinstance(a.func, ast.Attribute):
-                    if a.func.attr == 'utctimetuple':
-                        kind = 'utc' if d.split('.')[-1] == 'timegm' else 'local'
-                    elif a.func.attr == 'timetuple':
-                        kind = 'drops-offset'
-                if d.split('.')[-1] == 'mktime':
-                    kind = 'local'
-                out.append((fn, n, kind, ast.unparse(n)))
-            elif isinstance(n.func, ast.Attribute) and n.func.attr == 'timestamp' and not n.args:
-                # datetime.timestamp() interprets a naive datetime in the process' LOCAL zone (utctimetuple treats it as UTC):
-                # the octets would then depend on the TZ of the process
+        if only is not None and fn.qualname not in only:
+            continue
+        cands = _candidates(fn)
+        if not cands:
+            continue
+        by_node = {}
+        try:
+            for s in Interp(prog, Scenario(inline=lambda f: False, join_unknown=True)).run(fn):
+                for c in s.calls:
+                    by_node.setdefault(id(c[4]), []).append(c)
+        except AnalysisError:
+            by_node = {}                    # not interpretable (path explosion ...): literal idiom only
+        for n, what in cands:
+            if what == 'timestamp':
                 out.append((fn, n, 'local-for-naive', ast.unparse(n)))
+                continue
+            recs = by_node.get(id(n))
+            if not recs:
+                out.append((fn, n, _kind_of_node(n), ast.unparse(n)))
+                continue
+            kinds, texts = [], []
+            for c in recs:
+                fname = c[0].split('.')[-1]
+                arg = c[1][0] if c[1] else None
+                k = _kind_of_value(fname, arg)
+                if k not in kinds:
+                    kinds.append(k)
+                    texts.append('%s(%s)' % (c[0], arg))
+            # one site, several values reaching it: the worst classification decides
+            bad = [i for i, k in enumerate(kinds) if k != 'utc']
+            i = bad[0] if bad else 0
+            out.append((fn, n, kinds[i], texts[i]))
     return out
 
 
 def check_time_sites(rep, prog, rid, only=None):
     n = 0
-    for fn, node, kind, text in time_sites(prog):
-        if only is not None and fn.qualname not in only:
-            continue
+    for fn, node, kind, text in time_sites(prog, only):
         n += 1
         rep.saw(fn=fn)
         rep.check(kind == 'utc', rid, fn.qualname, text,
